@@ -305,7 +305,8 @@ class LongGroupSpace(Subspace):
         return res
 
 
-KEY_KINDS = ("float", "str_obj", "str_series", "bool", "dt_ns", "dt_us", "dt_s", "cat")
+KEY_KINDS = ("float", "str_obj", "str_series", "bool", "dt_ns", "dt_us", "dt_s", "cat",
+             "td_ns", "dt_ns_tz", "int_I64", "float_f4", "bool_na", "str_S", "int_u1")
 VAL_DTYPES = ("f4", "i8", "i4", "i2", "i1", "u1", "u8", "b", "M8[ns]", "M8[us]", "m8[ns]", "m8[us]")
 
 
@@ -325,7 +326,7 @@ def subspaces(tier, seed):
     # S2: one dimension at a time
     hi = 3 if q else 4
     for kk in KEY_KINDS:
-        G = 2 if kk == "bool" else 3
+        G = 2 if kk.startswith("bool") else 3
         sp.append(S(f"S2-key-{kk}-n1to{hi}", G, 1, hi, keys=(kk,), seed=seed))
     mk_hi = 2 if q else 3
     for kinds in (("float", "str_obj"), ("int", "float"), ("cat", "dt_ns"), ("str_obj", "float", "int")):
